@@ -322,8 +322,79 @@ let conservativity_cex (vs : var list) (ts : gterm list) (rhs : formula) (seed :
     end
   end
 
+(* the value carried by an error of ProofOutline::from_specification (audit B16), judged against the
+   outline by hand: it must belong to an entry of the outline (placeholders replaced; for lemmas:
+   closed, quantifiers joined) and name a real defect of that entry; with [taken] = Some l also: the
+   predicate of TakenPredicate occurs in l or in an earlier entry, the one of UndefinedRhsPredicate in
+   neither.  Some reason = wrong. *)
+let outline_payload m (outline : specification) (taken : pred list option) (payload : Sexp.t list) : string option =
+  let entries = List.map (M.Outline.rp_annot m) outline in
+  let rec prefixes acc = function [] -> [] | x :: r -> (List.rev acc, x) :: prefixes (x :: acc) r in
+  let positions = prefixes [] entries in   (* (earlier entries, entry) *)
+  let earlier_preds pre = List.concat_map (fun (a : aformula_annot) -> predicates a.an_formula) pre in
+  let closed (a : aformula_annot) =
+    (M.Outline.rp_annot m { a with an_formula = M.Outline.universal_closure_with_quantifier_joining a.an_formula }).an_formula in
+  let head = function
+    | FQ (QForall, _, FBin (CIff, FAtomic (AAtom (p, ts)), _)) -> Some { psym = p; parity = Conv.nat_of_int (List.length ts) }
+    | _ -> None in
+  let exists_entry roles why ok_entry =
+    if List.exists (fun (pre, (a : aformula_annot)) -> List.mem a.an_role roles && ok_entry pre a) positions then None else Some why in
+  let distinct l = List.length (uniq l) = List.length l in
+  match payload with
+  | [ S "AnnotatedFormulaWithInvalidRole"; x ] ->
+    let x = annot x in exists_entry [ RAssumption; RSpec ] "not an assumption / spec entry of the outline" (fun _ a -> a = x)
+  | [ S "TakenPredicate"; p ] ->
+    let p = pred p in
+    exists_entry [ RDefinition ] "not the predicate defined by a definition of the outline that occurs in the task or in an earlier entry"
+      (fun pre a -> head a.an_formula = Some p
+                    && (match taken with None -> true | Some l -> List.mem p l || List.mem p (earlier_preds pre)))
+  | [ S "UndefinedRhsPredicate"; f; p ] ->
+    let f = formula f and p = pred p in
+    exists_entry [ RDefinition ] "not a definition of the outline with this predicate in its body, unknown so far"
+      (fun pre a -> a.an_formula = f
+                    && (match f with FQ (QForall, _, FBin (CIff, _, rhs)) -> List.mem p (predicates rhs) | _ -> false)
+                    && (match taken with None -> true | Some l -> not (List.mem p l || List.mem p (earlier_preds pre))))
+  | [ S "TermsInDefinition"; tm; f ] ->
+    let f = formula f and tm = gterm tm in
+    exists_entry [ RDefinition ] "not a definition of the outline with this non-variable argument"
+      (fun _ a -> a.an_formula = f && gterm_to_var tm = None
+                  && (match f with FQ (QForall, _, FBin (CIff, FAtomic (AAtom (_, ts)), _)) -> List.mem tm ts | _ -> false))
+  | [ S "DuplicatedVariables"; f ] ->
+    let f = formula f in
+    exists_entry [ RDefinition ] "not a definition of the outline with a repeated quantified variable"
+      (fun _ a -> a.an_formula = f && (match f with FQ (QForall, vs, _) -> not (distinct vs) | _ -> false))
+  | [ S "FreeRhsVariables"; f ] ->
+    let f = formula f in
+    exists_entry [ RDefinition ] "not a definition of the outline whose body has a free variable outside the quantifier"
+      (fun _ a -> a.an_formula = f
+                  && (match f with FQ (QForall, vs, FBin (CIff, _, rhs)) -> List.exists (fun v -> not (List.mem v vs)) (free_variables rhs) | _ -> false))
+  | [ S "DefinedPredicateVariableListMismatch"; f ] ->
+    let f = formula f in
+    exists_entry [ RDefinition ] "not a definition of the outline whose head arguments differ from the quantified variables"
+      (fun _ a -> a.an_formula = f
+                  && (match f with
+                      | FQ (QForall, vs, FBin (CIff, FAtomic (AAtom (_, ts)), _)) ->
+                        let hv = List.filter_map gterm_to_var ts in
+                        not (List.for_all (fun v -> List.mem v hv) vs && List.for_all (fun v -> List.mem v vs) hv)
+                      | _ -> false))
+  | [ S "MalformedDefinition"; f ] ->
+    let f = formula f in
+    exists_entry [ RDefinition ] "not a definition of the outline that is not of the shape forall Xs (p(ts) <-> F)"
+      (fun _ a -> a.an_formula = f && head f = None)
+  | [ S ("MalformedInductiveLemma" | "MalformedInductiveAntecedent" | "MalformedInductiveVariables" | "MalformedInductiveTerm"); f ] ->
+    let f = formula f in
+    exists_entry [ RInductiveLemma ] "not the closed formula of an inductive lemma of the outline" (fun _ a -> closed a = f)
+  | [ S "InvalidRoleForGeneralLemma"; _ ] -> Some "InvalidRoleForGeneralLemma cannot be returned by from_specification"
+  | _ -> Some "malformed proof-outline payload"
+
 let sem_outline_gen (e : Sexp.t) : Sexp.t =
   match e with
+  | L [ L [ spec; taken; ph ]; L (A "err" :: payload) ] ->
+    (* a refusal: the value the error carries must name a defect of an entry of the outline *)
+    let m = Ops_tasks.placeholder_map (Ops_tasks.placeholders ph) in
+    (match outline_payload m (specification spec) (Some (list_of pred taken)) payload with
+     | Some why -> L (A "cex" :: S "the value carried by the error does not name a defect of the outline" :: S why :: payload)
+     | None -> ok 1)
   | L [ L [ spec; taken; ph ]; L (A "ok" :: _) ] ->
     let spec = specification spec and taken = list_of pred taken in
     let m = Ops_tasks.placeholder_map (Ops_tasks.placeholders ph) in
@@ -535,38 +606,8 @@ let c11_payload (t : M.External.ext_task) is_tight hpr (v : string) (payload : S
     annot_payload (fun a -> check [ (List.mem a spec_formulas, "not a formula of the specification");
                                     (a.an_role <> RAssumption && a.an_role <> RSpec, "the role is supported") ])
   | "ProofOutlineError" ->
-    (* the carried formula / predicate belongs to an entry of the proof outline (placeholders replaced;
-       for lemmas: closed, quantifiers joined) *)
-    let m = M.Outline.ph_of_fconsts (M.External.ug_placeholders ug) in
-    let entries = List.map (M.Outline.rp_annot m) t.et_proof_outline in
-    let with_role rs = List.filter (fun (a : aformula_annot) -> List.mem a.an_role rs) entries in
-    let closed (a : aformula_annot) =
-      (M.Outline.rp_annot m { a with an_formula = M.Outline.universal_closure_with_quantifier_joining a.an_formula }).an_formula in
-    let rec head = function
-      | FQ (QForall, _, f) -> head f
-      | FBin (CIff, FAtomic (AAtom (p, ts)), _) -> Some { psym = p; parity = Conv.nat_of_int (List.length ts) }
-      | _ -> None in
-    let def_formula f = check [ (List.exists (fun (a : aformula_annot) -> a.an_formula = f) (with_role [ RDefinition ]), "not the formula of a definition of the outline") ] in
-    let ind_formula f = check [ (List.exists (fun a -> closed a = f) (with_role [ RInductiveLemma ]), "not the closed formula of an inductive lemma of the outline") ] in
-    (match payload with
-     | [ S "AnnotatedFormulaWithInvalidRole"; a ] ->
-       check [ (List.mem (annot a) (with_role [ RAssumption; RSpec ]), "not an assumption / spec entry of the outline") ]
-     | [ S "TakenPredicate"; p ] ->
-       let p = pred p in
-       check [ (List.exists (fun (a : aformula_annot) -> head a.an_formula = Some p) (with_role [ RDefinition ]), "not the predicate defined by a definition of the outline") ]
-     | [ S "UndefinedRhsPredicate"; f; p ] ->
-       let f = formula f and p = pred p in
-       (match def_formula f with Some w -> Some w | None ->
-          check [ (List.mem p (predicates f), "the predicate does not occur in the definition") ])
-     | [ S "TermsInDefinition"; tm; f ] ->
-       let f = formula f and tm = gterm tm in
-       (match def_formula f with Some w -> Some w | None ->
-          check [ ((match f with FQ (QForall, _, FBin (CIff, FAtomic (AAtom (_, ts)), _)) -> List.mem tm ts | _ -> false), "not an argument of the defined atom");
-                  (M.Fol.gterm_to_var tm = None, "the term is a variable") ])
-     | [ S ("DuplicatedVariables" | "FreeRhsVariables" | "DefinedPredicateVariableListMismatch" | "MalformedDefinition"); f ] -> def_formula (formula f)
-     | [ S ("MalformedInductiveLemma" | "MalformedInductiveAntecedent" | "MalformedInductiveVariables" | "MalformedInductiveTerm"); f ] -> ind_formula (formula f)
-     | [ S "InvalidRoleForGeneralLemma"; _ ] -> Some "InvalidRoleForGeneralLemma cannot be returned by from_specification"
-     | _ -> Some "malformed proof-outline payload")
+    (* the taken predicates at that point depend on the translations: not re-derived here *)
+    outline_payload (M.Outline.ph_of_fconsts (M.External.ug_placeholders ug)) t.et_proof_outline None payload
   | _ -> Some "unknown variant"
 
 let sem_c11 (e : Sexp.t) : Sexp.t =
